@@ -87,6 +87,9 @@ const (
 	stH2NewHeight   = "h2-newheight"
 	stH2Propose     = "h2-propose"
 	stH2CommitWait  = "h2-commit-wait-parts"
+	// only in the coupled/claimed-height units: a node with two committed blocks, so that the catch-up
+	// branches of the gossip routines find stored commits, metas and parts for lagging peers
+	stH3NewHeight = "h3-newheight"
 )
 
 var allNodeStates = []string{stWaitSync, stH1NewHeight, stH1Propose, stH1Prevote, stH1PrevoteBlk, stH1PrevoteWait, stH1Precommit, stH1CommitWait, stH2NewHeight, stH2Propose, stH2CommitWait}
@@ -290,6 +293,9 @@ func newConsNode(state string, t int) (c *consNode, err error) {
 		c.fire(cstypes.RoundStepNewHeight)
 	case stH2NewHeight, stH2Propose, stH2CommitWait:
 		c.commitHeight()
+	case stH3NewHeight:
+		c.commitHeight()
+		c.commitHeight()
 	}
 	// now inside the target height
 	switch state {
@@ -322,16 +328,19 @@ func newConsNode(state string, t int) (c *consNode, err error) {
 		}
 		c.makeBlock()
 		c.votesFrom(kproto.PrecommitType, c.BlockID, o...) // +2/3 precommits for a block we do not have
-	case stH2NewHeight:
+	case stH2NewHeight, stH3NewHeight:
 		c.makeBlock()
 	}
 	rs := n.RS()
 	want := map[string]cstypes.RoundStepType{stWaitSync: cstypes.RoundStepNewHeight, stH1NewHeight: cstypes.RoundStepNewHeight, stH1Propose: cstypes.RoundStepPropose,
 		stH1Prevote: cstypes.RoundStepPrevote, stH1PrevoteBlk: cstypes.RoundStepPrevote, stH1PrevoteWait: cstypes.RoundStepPrevoteWait, stH1Precommit: cstypes.RoundStepPrecommit, stH1CommitWait: cstypes.RoundStepCommit,
-		stH2NewHeight: cstypes.RoundStepNewHeight, stH2Propose: cstypes.RoundStepPropose, stH2CommitWait: cstypes.RoundStepCommit}[state]
+		stH2NewHeight: cstypes.RoundStepNewHeight, stH2Propose: cstypes.RoundStepPropose, stH2CommitWait: cstypes.RoundStepCommit, stH3NewHeight: cstypes.RoundStepNewHeight}[state]
 	wantH := uint64(1)
 	if state == stH2NewHeight || state == stH2Propose || state == stH2CommitWait {
 		wantH = 2
+	}
+	if state == stH3NewHeight {
+		wantH = 3
 	}
 	if rs.Step != want || rs.Height != wantH {
 		return nil, fmt.Errorf("fixture: state %s not reached: node at %d/%d/%v", state, rs.Height, rs.Round, rs.Step)
